@@ -132,7 +132,12 @@ def run(args):
     t0 = time.time()
     for c in sel:
         try:
-            frames.append((c, eng.verify(c)))
+            fr = eng.verify(c)
+            frames.append((c, fr))
+            if getattr(fr, "partial_error", None):
+                out_of_reach.append((c.key, fr.partial_error))
+            elif getattr(fr, "unused_anchors", None):
+                out_of_reach.append((c.key, "ghost anchor(s) not found in the function: " + "; ".join(fr.unused_anchors)))
         except Unsupported as ex:
             out_of_reach.append((c.key, str(ex)))
     t_vcgen = time.time() - t0
@@ -165,16 +170,18 @@ def run(args):
         with ctx.Pool(min(args.jobs, max(1, len(_JOBS)))) as pool:
             for k, r in pool.imap_unordered(_work, range(len(_JOBS)), chunksize=1):
                 results[k] = r
-    vacuous, crashes = [], []
+    vacuous, crashes, canary_groups = [], [], {}
     for (kind, payload), r in zip(_JOBS, results):
         if r.get("verdict") == "crash":
             crashes.append((payload[0], r["detail"]))
             continue
         if kind in ("inst", "ground"):
             ob_index[payload[0]]["results"].append(r)
-        elif kind == "canary" and r["verdict"] == "VACUOUS":
-            vacuous.append(payload[0])
+        elif kind == "canary":
+            canary_groups.setdefault(payload[0], []).append(r["verdict"])
 
+    # a proof context (pre-state, loop head of a declared case) is vacuous when NO path reaching it is consistent
+    vacuous = sorted(n for n, vs in canary_groups.items() if all(v == "VACUOUS" for v in vs))
     # ---------------------------------------------------------------- verdict per obligation
     for ob in ob_index.values():
         vs = [r["verdict"] for r in ob["results"]]
@@ -221,6 +228,32 @@ def run(args):
     os.makedirs(os.path.join(ROOT, "replays"), exist_ok=True)
     open_findings = [k for k in known.get("findings", []) if k.get("status") == "open" and prop in k.get("properties", [])]
     replay_stats = {"models_replayed": 0, "searches": 0, "search_cases": 0}
+    violations_pre = violations
+    # functions that are out of reach / undecided still get the directed concrete search (bounded):
+    # a failing input found on the real code is a violation whatever the state of the proof
+    searched_extra = set()
+    for key, why in list(out_of_reach) + [(o["fn"], "undecided") for o in ob_index.values() if o["verdict"] == "undecided"]:
+        if key in failed_by_fn or key in searched_extra:
+            continue
+        searched_extra.add(key)
+        c = next((x for x in sel if x.key == key and x.kind == "contract"), None)
+        if c is None:
+            continue
+        replay_stats["searches"] += 1
+        rr = run_rt({"kind": "search", "contract_key": c.key, "mode": c.mode, "seed": seed,
+                     "budget": 30000 if tier == "quick" else 400000, "repo_root": args.repo}, timeout=3000)
+        replay_stats["search_cases"] += rr.get("tried", 0)
+        if rr.get("outcome") == "violation":
+            kf = match_known(open_findings, c.key, rr)
+            if kf:
+                known_lines.append(f"KNOWN-FINDING: property={prop} {kf['id']} {kf['what']}")
+                continue
+            rec = {"property": prop, "function": key, "failed_obligations": [f"{key}/(proof undecided: {why})"],
+                   "how_found": "directed small-scope search with the executable contract (proof undecided)",
+                   "witness": rr, "contract_key": c.key, "mode": c.mode}
+            path = os.path.join("replays", f"{prop}-{safe(key)}-search.json")
+            json.dump(rec, open(os.path.join(ROOT, path), "w"), indent=1, default=str)
+            violations.append((path, False, [key]))
     for fnkey, obs in failed_by_fn.items():
         c = obs[0]["contract"]
         found = None
